@@ -106,8 +106,8 @@ func TestDriveC04(t *testing.T) {
 				}
 				rec.NextTrace()
 				avg0 := 0.0
-				if healthy {
-					avg0 = 1500
+				if healthy && (i/2)%2 == 1 {
+					avg0 = 1500 // (otherwise 0: no reading yet, the first poll precedes the first cycle)
 				}
 				ctl := NewCtl(rec, spec, start, 2, avg0)
 				defer ctl.Close()
